@@ -72,6 +72,8 @@ func names(tier int) []string {
 		"/usr/etc/run/x", "/tmp/user/1000/proc/x", "/usr/share/att/logo/x.png", "/home/user/att/notes/x.txt", "/proc/one/x", "/srv/chroot/proc/one/status",
 		// directories that only look like the dot directories of the home rewrites
 		"/home/user/ccache/a.o", "/home/user/xconfig/a", "/home/user/Xlocal/share/x", "/home/user/xssh/id", "/home/user/-gnupg/x",
+		// (fourth hunt) numbers just outside what the variable they are rewritten to matches (@{busname} = :1.@{u16}: up to 69999)
+		"/srv/:1.70000/x", "/srv/:1.123456/x", "/srv/:1.69999/x",
 	}
 	if tier > 0 {
 		n = append(n, "/home/a.b/.cache/x", "/home/user/.cachefoo", "/usr/libfoo/x", "/usr/binfoo", "/runfoo/x", "/proc/12/fd/3", "/proc/1234/task/5/stat", "/proc/10/x",
